@@ -281,3 +281,17 @@ def _items(ip, args, kw):
 @spec("concat_")
 def _concat_spec(ip, args, kw):
     return ZV(L.seq_concat(as_v(args[0]), as_v(args[1])), "seq")
+
+
+declare_pred("alloc_time", L.V, L.I)    # ghost: value of the allocation clock when the object was created by an inlined constructor
+
+
+@spec("clock")
+def _clock(ip, args, kw):
+    """clock(): the ghost allocation clock now; clock0(): its value on entry."""
+    return ZI(ip.st.clock)
+
+
+@spec("clock0")
+def _clock0(ip, args, kw):
+    return ZI(ip.clock0)
